@@ -597,7 +597,8 @@ pub fn generate(g: &GenCtx, seed: u64) -> Scenario {
         let op = intern(&mut sc, ix);
         let t = rng.below(sc.threads.len() as u64) as usize;
         let at = rng.below(sc.threads[t].steps.len() as u64 + 1) as usize;
-        let repeat = rng.range(10_050, 12_500) as u32;
+        // mostly just across the 10 000-call threshold; sometimes across 2^16 (16-bit counters)
+        let repeat = if rng.pct(12) { rng.range(65_600, 70_000) as u32 } else { rng.range(10_050, 12_500) as u32 };
         sc.threads[t].steps.insert(at, Step { op, repeat, rekey: None, clock_jump_ms: 0 });
         // long-haul runs keep yields off: 10^4 repeats x yield sites would only slow the run down
         sc.yield_mask = 0;
